@@ -1157,9 +1157,13 @@ pub fn make_observer(cfg: InvCfg, state: Arc<Mutex<InvState>>) -> k::Observer {
                         // a utimens that leaves the stored mtime as it was and
                         // does not move atime backwards changes nothing the
                         // statement cares about
-                        let harmless = matches!(r.kind, K::Utimens | K::Futimens) && fs.inodes.get(&r.ino).map(|i| i.mtime == r.prev_mtime && (i.atime >= r.prev_atime || r.prev_atime > r.now || r.prev_mtime > r.now)).unwrap_or(false);
+                        // ("future" is judged by the clock value the caller worked
+                        // with -- the atime it passes -- not by the time the call
+                        // lands: a stamp can cross "now" in between)
+                        let lib_now = if r.atime != kismet_vfs::simfs::UTIME_OMIT && r.atime > 0 { r.atime.min(r.now) } else { r.now };
+                        let harmless = matches!(r.kind, K::Utimens | K::Futimens) && fs.inodes.get(&r.ino).map(|i| i.mtime == r.prev_mtime && (i.atime >= r.prev_atime || r.prev_atime > lib_now || r.prev_mtime > lib_now)).unwrap_or(false);
                         if !harmless {
-                            st.violations.push(("readonly", format!("mutating call under read-only root {}: {}", root, r.short())));
+                            st.violations.push(("readonly", format!("mutating call under read-only root {}: {} [before: atime {} mtime {}; after: {:?}; now {}]", root, r.short(), r.prev_atime, r.prev_mtime, fs.inodes.get(&r.ino).map(|i| (i.atime, i.mtime)), r.now)));
                         }
                     }
                 }
